@@ -39,18 +39,80 @@ def ofNV (v : NV) : Json := Flatland.Run.C04.ofNative v
 def asciiUpper (s : List Char) : List Char :=
   s.map fun c => if 'a' ≤ c && c ≤ 'z' then Char.ofNat (c.toNat - 32) else c
 
-def parseKey (j : Json) : Except String (Option (List Char → List Char)) := do
+def parseErr (s : String) : Except String Err :=
+  match s with
+  | "TypeError" => pure .typeError | "KeyError" => pure .keyError
+  | "ValueError" => pure .valueError | "AttributeError" => pure .attributeError
+  | s => throw s!"bad exception class {s}"
+
+/-- key functions of the cases; `table` / `raise_on` / `unhash_on` fail for some names -/
+partial def parseKey (j : Json) : Except String (Option PKey) := do
   if isNull j then return none
   match (← sfld j "fn") with
-  | "ident" => return some id
-  | "upper" => return some asciiUpper
-  | "add" => let p ← cfld j "p"; return some (fun k => p ++ k)
+  | "ident" => return some (fun k => .ok k)
+  | "upper" => return some (fun k => .ok (asciiUpper k))
+  | "add" => let p ← cfld j "p"; return some (fun k => .ok (p ++ k))
   | "strip" =>
     let p ← cfld j "p"
-    return some (fun k => if p.isPrefixOf k then k.drop p.length else k)
-  | "const" => let c ← cfld j "c"; return some (fun _ => c)
-  | "rev" => return some List.reverse
+    return some (fun k => .ok (if p.isPrefixOf k then k.drop p.length else k))
+  | "const" => let c ← cfld j "c"; return some (fun _ => .ok c)
+  | "rev" => return some (fun k => .ok k.reverse)
+  | "table" =>
+    let m ← (← afld j "map").mapM fun p => do
+      match (← arr p) with
+      | [a, b] => return (← chars a, ← chars b)
+      | _ => throw "bad table pair"
+    -- `dict(pairs).__getitem__`: the last pair with that name, KeyError without one
+    return some (fun k => match dictGet m k with | some v => .ok v | none => .error .keyError)
+  | "raise_on" =>
+    let names ← listOf chars (← fld j "names")
+    let exc ← parseErr (← sfld j "exc")
+    let base := (← parseKey (fldD j "base" Json.null)).getD (fun k => .ok k)
+    return some (fun k => if names.contains k then .error exc else base k)
+  | "unhash_on" =>
+    let names ← listOf chars (← fld j "names")
+    let base := (← parseKey (fldD j "base" Json.null)).getD (fun k => .ok k)
+    return some (fun k => if names.contains k then .error .typeError else base k)
   | s => throw s!"bad key fn {s}"
+
+def parseSetup (j : Json) : Except String Setup := do
+  let m := fldD j "malformed" Json.null
+  if isNull m then return {}
+  let form ← sfld m "form"
+  match (← sfld m "arg") with
+  | "include" => return { badInc := true }
+  | "omit" => return { badOm := true }
+  | "rename" =>
+    -- what `dict(to_pairs(x))` raises: a pair that does not unpack into two -> ValueError; an
+    -- unhashable source, a non-iterable -> TypeError
+    let e := if form == "triple" || form == "single" || form == "str3" then Err.valueError else Err.typeError
+    return { badRen := some e }
+  | s => throw s!"bad malformed arg {s}"
+
+/-- which `setattr(obj, name, _)` the case's object rejects, and with what -/
+def parseRej (j : Json) : Except String (List Char → Option Err) := do
+  let m := fldD j "objmode" Json.null
+  if isNull m then return fun _ => none
+  match (← sfld m "kind") with
+  | "roprop" =>
+    let names ← listOf chars (← fld m "names")
+    return fun x => if names.contains x then some .attributeError else none
+  | "slots" =>
+    let allowed ← listOf chars (← fld m "allowed")
+    return fun x => if allowed.contains x then none else some .attributeError
+  | "setattr" =>
+    let names ← listOf chars (← fld m "names")
+    let exc ← parseErr (← sfld m "exc")
+    return fun x => if names.contains x then some exc else none
+  | s => throw s!"bad objmode {s}"
+
+/-- attributes whose read raises something else than AttributeError -/
+def parseBad (j : Json) : Except String (List Char → Option Err) := do
+  let l ← (← arr j).filterMapM fun a => do
+    match a.getObjVal? "raises" with
+    | .ok (.str s) => return some (← cfld a "name", ← parseErr s)
+    | _ => return none
+  return fun x => (l.find? (·.1 == x)).map (·.2)
 
 def parseStrs (j : Json) : Except String (List (List Char)) :=
   if isNull j then pure [] else listOf chars j
@@ -62,11 +124,11 @@ def parseRename (j : Json) : Except String (List (List Char × List Char)) := do
     | [a, b] => return (← chars a, ← chars b)
     | _ => throw "bad rename pair"
 
-def parseArgs (j : Json) : Except String Args := do
-  return { inc := ← parseStrs (fldD j "include" Json.null),
-           om := ← parseStrs (fldD j "omit" Json.null),
-           ren := ← parseRename (fldD j "rename" Json.null),
-           key := ← parseKey (fldD j "key" Json.null) }
+def parseArgs (j : Json) : Except String (Args × PKey) := do
+  return ({ inc := ← parseStrs (fldD j "include" Json.null),
+            om := ← parseStrs (fldD j "omit" Json.null),
+            ren := ← parseRename (fldD j "rename" Json.null) },
+          (← parseKey (fldD j "key" Json.null)).getD (fun k => .ok k))
 
 def parsePolicy (j : Json) : Except String Policy := do
   match (← sfld j "policy") with
@@ -82,6 +144,9 @@ def parseObj (j : Json) : Except String (Obj NV) := do
 def excJson : Option Err → Json
   | Option.none => Json.null
   | some .typeError => Json.str "TypeError"
+  | some .keyError => Json.str "KeyError"
+  | some .valueError => Json.str "ValueError"
+  | some .attributeError => Json.str "AttributeError"
 
 def pairsJson (l : List (List Char × NV)) : Json :=
   ofList (fun p => Json.arr #[ofChars p.1, ofNV p.2]) l
@@ -104,29 +169,43 @@ def run (j : Json) : Except String Json := do
   let e : Elem NV ← presentJ.mapM fun f => do
     let n ← cfld f "name"
     return (n, S.setF n (← parseNV (← fld f "value")))
-  let a ← parseArgs j
+  let (a, pk) ← parseArgs j
+  let su ← parseSetup j
+  let rej ← parseRej j
   let o ← parseObj (fldD j "obj" (Json.arr #[]))
+  let bad ← parseBad (fldD j "obj" (Json.arr #[]))
+  let thenJ := fldD j "then" Json.null
   match (← sfld j "op") with
   | "slice" =>
-    match slice e a with
+    match sliceP su a pk e with
     | .error x => return obj [("exc", excJson (some x)), ("result", Json.null)]
     | .ok d => return obj [("exc", Json.null), ("result", pairsJson (sortByKey d))]
   | "update" =>
-    match updateObject e o a with
-    | .error x => return obj [("exc", excJson (some x)), ("obj", objJson o)]
-    | .ok o' => return obj [("exc", Json.null), ("obj", objJson o')]
+    let r := updateObjectP su a pk rej e o
+    let first := [("exc", excJson r.exc), ("obj", objJson r.obj)]
+    if isNull thenJ then return obj first
+    -- recovery: a second call on the object as the first one left it
+    let (a2, pk2) ← parseArgs thenJ
+    let r2 := updateObjectP {} a2 pk2 rej e r.obj
+    return obj (first ++ [("exc2", excJson r2.exc), ("obj2", objJson r2.obj)])
   | "setby" =>
-    let r := setByObject S e o a
-    return obj [("exc", excJson r.exc), ("reads", ofList ofChars r.reads), ("value", pairsJson r.elem)]
+    let r := setByObjectP S su bad e o a
+    let first := [("exc", excJson r.exc), ("reads", ofList ofChars r.reads), ("value", pairsJson r.elem)]
+    if isNull thenJ then return obj first
+    let (a2, _) ← parseArgs thenJ
+    let r2 := setByObjectP S {} bad r.elem o a2
+    return obj (first ++ [("exc2", excJson r2.exc), ("reads2", ofList ofChars r2.reads), ("value2", pairsJson r2.elem)])
   | "roundtrip" =>
     -- update_object(obj, **args) then a fresh element .set_by_object(obj, **args2)
-    let a2 ← parseArgs (← fld j "args2")
-    match updateObject e o a with
-    | .error x => return obj [("exc", excJson (some x)), ("obj", objJson o), ("reads", Json.null),
+    let (a2, _) ← parseArgs (← fld j "args2")
+    let r := updateObjectP su a pk rej e o
+    match r.exc with
+    | some x => return obj [("exc", excJson (some x)), ("obj", objJson r.obj), ("reads", Json.null),
                               ("value", Json.null)]
-    | .ok o' =>
+    | Option.none =>
+      let o' := r.obj
       let blank : Elem NV := if sparse then [] else S.fields.map (·, S.blank)
-      let r := setByObject S blank o' a2
+      let r := setByObjectP S {} bad blank o' a2
       return obj [("exc", excJson r.exc), ("obj", objJson o'), ("reads", ofList ofChars r.reads),
                   ("value", pairsJson r.elem)]
   | s => throw s!"bad op {s}"
